@@ -58,6 +58,7 @@ package goatlang
 //@   pure
 //@   requires valid(v) && valid(b)
 //@   panics_iff (v.t | b.t) == TypeString && (!is(v.value, stringT) || !is(b.value, stringT))
+//@   ensures#novalue (v.t | b.t) != TypeString ==> isnil(result.value)
 //@   ensures#i8 v.t == TypeInt8 && b.t == TypeInt8 ==> result.t == TypeInt8 && valid(result) && int8(result.num) == int8(v.num) + int8(b.num)
 //@   ensures#i8c v.t == TypeInt8 && b.t == untypedInt && fits8(b) ==> result.t == TypeInt8 && valid(result) && int8(result.num) == int8(v.num) + int8(int64(b.num))
 //@   ensures#ci8 v.t == untypedInt && b.t == TypeInt8 && fits8(v) ==> result.t == TypeInt8 && valid(result) && int8(result.num) == int8(int64(v.num)) + int8(b.num)
@@ -81,6 +82,7 @@ package goatlang
 //@   pure
 //@   requires valid(v) && valid(b)
 //@   nopanic
+//@   ensures#novalue isnil(result.value)
 //@   ensures#i8 v.t == TypeInt8 && b.t == TypeInt8 ==> result.t == TypeInt8 && valid(result) && int8(result.num) == int8(v.num) - int8(b.num)
 //@   ensures#i8c v.t == TypeInt8 && b.t == untypedInt && fits8(b) ==> result.t == TypeInt8 && valid(result) && int8(result.num) == int8(v.num) - int8(int64(b.num))
 //@   ensures#ci8 v.t == untypedInt && b.t == TypeInt8 && fits8(v) ==> result.t == TypeInt8 && valid(result) && int8(result.num) == int8(int64(v.num)) - int8(b.num)
@@ -529,6 +531,8 @@ package goatlang
 //@   def v.stack[v.frame.BaseN+int(a)]
 //@ spec globalOK(v *VM, a reg) bool
 //@   def 0 <= int(a) && int(a) < len(v.globals.data)
+//@ spec keepsGlobals(v *VM) bool
+//@   def v.globals == old(v.globals) && len(v.globals.data) == old(len(v.globals.data)) && (forall j int :: 0 <= j && j < len(v.globals.data) ==> v.globals.data[j] == old(v.globals.data[j]))
 //@ spec sepStack(v *VM) bool
 //@   def arr(v.stack) != arr(v.globals.data) && v.globals != nil
 //@
@@ -540,6 +544,7 @@ package goatlang
 //@
 //@ func (*VM).exec case codeAdd
 //@   property C07 C04 C02
+//@   ensures#globals keepsGlobals(v)
 //@   requires need(v, 2) && valid(top(v, 1)) && valid(top(v, 0))
 //@   ensures#delta len(v.stack) == old(len(v.stack)) - 1
 //@   ensures#frame keeps(v, len(v.stack) - 1)
@@ -548,6 +553,7 @@ package goatlang
 //@
 //@ func (*VM).exec case codeSub
 //@   property C07 C04 C02
+//@   ensures#globals keepsGlobals(v)
 //@   requires need(v, 2) && valid(top(v, 1)) && valid(top(v, 0))
 //@   ensures#delta len(v.stack) == old(len(v.stack)) - 1
 //@   ensures#frame keeps(v, len(v.stack) - 1)
@@ -556,6 +562,7 @@ package goatlang
 //@
 //@ func (*VM).exec case codeMul
 //@   property C07 C04 C02
+//@   ensures#globals keepsGlobals(v)
 //@   requires need(v, 2) && valid(top(v, 1)) && valid(top(v, 0))
 //@   ensures#delta len(v.stack) == old(len(v.stack)) - 1
 //@   ensures#frame keeps(v, len(v.stack) - 1)
@@ -564,6 +571,7 @@ package goatlang
 //@
 //@ func (*VM).exec case codeDiv
 //@   property C07 C04 C02
+//@   ensures#globals keepsGlobals(v)
 //@   requires need(v, 2) && valid(top(v, 1)) && valid(top(v, 0))
 //@   ensures#delta len(v.stack) == old(len(v.stack)) - 1
 //@   ensures#frame keeps(v, len(v.stack) - 1)
@@ -668,6 +676,7 @@ package goatlang
 //@
 //@ func (*VM).exec case codeLocalMul
 //@   property C07 C04 C02
+//@   ensures#globals keepsGlobals(v)
 //@   requires localOK(v, ins(v).A) && localOK(v, ins(v).B) && valid(local(v, ins(v).A)) && valid(local(v, ins(v).B))
 //@   ensures#delta len(v.stack) == old(len(v.stack)) + 1
 //@   ensures#frame keeps(v, old(len(v.stack)))
@@ -676,6 +685,7 @@ package goatlang
 //@
 //@ func (*VM).exec case codeLocalAdd
 //@   property C07 C04 C02
+//@   ensures#globals keepsGlobals(v)
 //@   requires localOK(v, ins(v).A) && localOK(v, ins(v).B) && valid(local(v, ins(v).A)) && valid(local(v, ins(v).B))
 //@   ensures#delta len(v.stack) == old(len(v.stack)) + 1
 //@   ensures#frame keeps(v, old(len(v.stack)))
@@ -684,6 +694,7 @@ package goatlang
 //@
 //@ func (*VM).exec case codeLocalDiv
 //@   property C07 C04 C02
+//@   ensures#globals keepsGlobals(v)
 //@   requires localOK(v, ins(v).A) && localOK(v, ins(v).B) && valid(local(v, ins(v).A)) && valid(local(v, ins(v).B))
 //@   ensures#delta len(v.stack) == old(len(v.stack)) + 1
 //@   ensures#frame keeps(v, old(len(v.stack)))
@@ -692,6 +703,7 @@ package goatlang
 //@
 //@ func (*VM).exec case codeLocalSub
 //@   property C07 C04 C02
+//@   ensures#globals keepsGlobals(v)
 //@   requires localOK(v, ins(v).A) && localOK(v, ins(v).B) && valid(local(v, ins(v).A)) && valid(local(v, ins(v).B))
 //@   ensures#delta len(v.stack) == old(len(v.stack)) + 1
 //@   ensures#frame keeps(v, old(len(v.stack)))
@@ -709,6 +721,7 @@ package goatlang
 //@
 //@ func (*VM).exec case codePush
 //@   property C07 C02
+//@   ensures#globals keepsGlobals(v)
 //@   nopanic
 //@   ensures#delta len(v.stack) == old(len(v.stack)) + 1
 //@   ensures#frame keeps(v, old(len(v.stack)))
@@ -744,6 +757,7 @@ package goatlang
 
 //@ func (*VM).exec case codeIncDec
 //@   property C07 C04 C02
+//@   ensures#globals keepsGlobals(v)
 //@   reveal newUntypedInt
 //@   requires need(v, 1) && valid(top(v, 0)) && small(int64(int(ins(v).A)))
 //@   ensures#delta len(v.stack) == old(len(v.stack))
@@ -753,6 +767,7 @@ package goatlang
 //@
 //@ func (*VM).exec case codeLocalIncDec
 //@   property C07 C04 C02
+//@   ensures#globals keepsGlobals(v)
 //@   reveal newUntypedInt
 //@   requires localOK(v, ins(v).A) && valid(local(v, ins(v).A)) && small(int64(int(ins(v).B)))
 //@   ensures#delta len(v.stack) == old(len(v.stack))
@@ -846,6 +861,7 @@ package goatlang
 //@
 //@ func (*VM).exec case codeJump
 //@   property C07 C06 C02
+//@   ensures#globals keepsGlobals(v)
 //@   requires v.frame.N + 1 + int(ins(v).A) >= 0
 //@   nopanic
 //@   ensures#delta len(v.stack) == old(len(v.stack)) && keeps(v, len(v.stack))
@@ -853,12 +869,14 @@ package goatlang
 //@
 //@ func (*VM).exec case codePass
 //@   property C07 C02
+//@   ensures#globals keepsGlobals(v)
 //@   nopanic
 //@   ensures#delta len(v.stack) == old(len(v.stack)) && keeps(v, len(v.stack))
 //@   ensures#next stays(v)
 //@
 //@ func (*VM).exec case codeLocalGet
 //@   property C07 C02
+//@   ensures#globals keepsGlobals(v)
 //@   requires localOK(v, ins(v).A)
 //@   nopanic
 //@   ensures#delta len(v.stack) == old(len(v.stack)) + 1
@@ -868,6 +886,7 @@ package goatlang
 //@
 //@ func (*VM).exec case codeLocalSet
 //@   property C07 C04 C02
+//@   ensures#globals keepsGlobals(v)
 //@   requires need(v, 1) && localOK(v, ins(v).A) && valid(top(v, 0))
 //@   nopanic
 //@   ensures#delta len(v.stack) == old(len(v.stack)) - 1
@@ -886,6 +905,7 @@ package goatlang
 //@
 //@ func (*VM).exec case codeGlobalGet
 //@   property C07 C02
+//@   ensures#globals keepsGlobals(v)
 //@   requires globalOK(v, ins(v).A)
 //@   nopanic
 //@   ensures#delta len(v.stack) == old(len(v.stack)) + 1
@@ -1058,10 +1078,12 @@ package goatlang
 //@ func (Value).getIndex
 //@   property C07
 //@   trusted
+//@   nostack
 //@   allocates funcT
 //@ func (Value).setIndex
 //@   property C07
 //@   trusted
+//@   nostack
 //@   modifies allbut(H$VM,A$instruction,H$funcT,H$lookup)
 //@   ensures stackKept()
 //@ func NewMap
@@ -1388,3 +1410,91 @@ package goatlang
 //@   invariant len(v.stack) >= old(len(v.stack)) - args + rets
 //@   invariant forall j int :: 0 <= j && j < old(len(v.stack)) - args ==> v.stack[j] == old(v.stack[j])
 //@   invariant forall p int :: len(v.stack) - rets + i <= p && p < len(v.stack) ==> valid(v.stack[p])
+
+// ---------------------------------------------------------------------------------------------
+// Layer O: the peephole rules of doOptimize (extracted from its AST). One block per rule; a rule
+// in the code without a block here is an error. `sameline i j`: Go's grammar puts the tokens that
+// produce window components i and j on one source line (assumption A-LINE).
+// ---------------------------------------------------------------------------------------------
+//@ rule codeLocalGet codeIncDec codeLocalSet -> codeLocalIncDec
+//@   sameline 0 1
+//@   reveal newUntypedInt
+//@   axioms BRIDGE_ORD
+//@   typing isInt(v.stack[v.frame.BaseN+int(w0A)].t) || v.stack[v.frame.BaseN+int(w0A)].t == TypeFloat64
+//@   typing 0 <= int(w1A) && int(w1A) <= 127 && valid(v.stack[v.frame.BaseN+int(w0A)])
+//@   uselemma incAssign(v.stack[v.frame.BaseN+int(w0A)], int(w1A))
+//@ rule codeLocalGet codeLocalGet codeAdd -> codeLocalAdd
+//@   sameline 0 2
+//@ rule codeLocalGet codeLocalGet codeMul -> codeLocalMul
+//@   sameline 0 2
+//@ rule codeLocalGet codeLocalGet codeDiv -> codeLocalDiv
+//@   sameline 0 2
+//@ rule codeLocalGet codeLocalGet codeSub -> codeLocalSub
+//@   sameline 0 2
+//@ rule codeLocalGet codeConst codeGet -> codeFastGet
+//@   sameline 0 2
+//@ rule codeLocalGet codeConst codeSet -> codeFastSet
+//@   sameline 0 2
+//@ rule codeLocalGet codePush codeGet -> codeFastGetInt
+//@   sameline 0 2
+//@   axioms BRIDGE_ORD
+//@   typing -2147483648 <= int(w1A) && int(w1A) <= 2147483647
+//@   uselemma intKey(int(w1A))
+//@   argrel 0 1 numvalue
+//@ rule codeLocalGet codePush codeSet -> codeFastSetInt
+//@   sameline 0 2
+//@   axioms BRIDGE_ORD
+//@   typing -2147483648 <= int(w1A) && int(w1A) <= 2147483647
+//@   uselemma intKey(int(w1A))
+//@   argrel 0 1 numvalue
+//@ rule codeLocalGet codeGetAttr codeCall -> codeFastCallAttr
+//@   sameline 0 1
+//@   axioms BRIDGE_ORD
+//@   typing -32768 <= int(w2A) && int(w2A) <= 32767 && -32768 <= int(w2B) && int(w2B) <= 32767
+//@   uselemma paramsRT(w2A, w2B)
+//@ rule codeGlobalGet codeCall -> codeFastCall
+//@ rule codeLocalGet codeGetAttr -> codeFastGetAttr
+//@   sameline 0 1
+//@ rule codeLocalGet codeSetAttr -> codeFastSetAttr
+//@   sameline 0 1
+//@ rule codePush codeAdd -> codeIncDec
+//@   sameline 0 1
+//@   reveal newUntypedInt
+//@   typing small(int64(int(w0A)))
+//@ rule codePush codeSub -> codeIncDec
+//@   sameline 0 1
+//@   reveal newUntypedInt
+//@   axioms BRIDGE_ORD
+//@   typing v.stack[len(v.stack)-1].t == TypeInt8 || v.stack[len(v.stack)-1].t == TypeInt32
+//@   typing -127 <= int(w0A) && int(w0A) <= 127 && valid(v.stack[len(v.stack)-1]) && len(v.stack) >= 1
+//@   uselemma subIsAddNeg(v.stack[len(v.stack)-1], int(w0A))
+//@ rule codeJump -> codePass
+
+// ---- lemmas over the numeric core used by the optimizer-rule lemmas ----
+//@ lemma incAssign(a Value, k int)
+//@   property C02
+//@   intmode bv
+//@   reveal (Value).opAdd (Value).assign newUntypedInt
+//@   requires valid(a) && (isInt(a.t) || a.t == TypeFloat64) && 0 <= k && k <= 127
+//@   ensures a.opAdd(newUntypedInt(k)).assign(a.t) == a.opAdd(newUntypedInt(k))
+//@
+//@ lemma subIsAddNeg(a Value, k int)
+//@   property C02
+//@   intmode bv
+//@   reveal (Value).opAdd (Value).opSub newUntypedInt
+//@   requires valid(a) && (a.t == TypeInt8 || a.t == TypeInt32) && -127 <= k && k <= 127
+//@   ensures a.opSub(newUntypedInt(k)) == a.opAdd(newUntypedInt(-k))
+//@
+//@ lemma intKey(k int)
+//@   property C02
+//@   intmode bv
+//@   reveal Int newUntypedInt
+//@   requires -2147483648 <= k && k <= 2147483647
+//@   ensures same(Int(k).num, newUntypedInt(k).num) && Int(k).value == newUntypedInt(k).value
+//@
+//@ lemma paramsRT(a reg, b reg)
+//@   property C02 C09
+//@   intmode bv
+//@   reveal joinParams splitParams
+//@   requires -32768 <= a && a <= 32767 && -32768 <= b && b <= 32767
+//@   ensures fst(splitParams(joinParams(a, b))) == a && snd(splitParams(joinParams(a, b))) == b
